@@ -89,6 +89,10 @@ Gen ==
                                  /\ (Tier = "thorough" \/ Units[a].fam \in {"time", "gcu"})
                                  /\ c' = [kind |-> "harmonise", from |-> a, spelling |-> Units[a].name, variant |-> "asis", to |-> b, tospelling |-> Units[b].name,
                                           cls |-> "seven", bound |-> d, expunit |-> "", ratio |-> Zero3]
+     \/ \E a, b \in UnitIdx : /\ SameFam(a, b) /\ a # b                                     \* two columns with one source unit and different targets
+                              /\ (Tier = "thorough" \/ Units[a].fam = "time")
+                              /\ c' = [kind |-> "twocolumn", from |-> a, spelling |-> Units[a].name, variant |-> "asis", to |-> b, tospelling |-> Units[b].name,
+                                       cls |-> "seven", bound |-> a, expunit |-> "", ratio |-> Zero3]
      \/ \E a, b \in UnitIdx : /\ ~SameFam(a, b)                                             \* harmonising never crosses families: an error
                               /\ (Tier = "thorough" \/ a \in {1, 7, 12} \/ b \in {2, 9, 15})
                               /\ c' = [kind |-> "crossfamily", from |-> a, spelling |-> Units[a].name, variant |-> "asis", to |-> b, tospelling |-> Units[b].name,
